@@ -232,7 +232,7 @@ func genSeqCase(small bool, maxOps int) func(core.Source) seqCase {
 			c.Elem = "int"
 			tiny = maxOps > 1
 		} else {
-			c.Elem = core.Pick(s, []string{"int", "string", "float64", "ints", "any"}, "elem")
+			c.Elem = core.Pick(s, []string{"int", "string", "float64", "ints", "any", "int-far"}, "elem")
 		}
 		nalpha := pickInt(small, 2, 5)
 		c.Coll = core.Pick(s, []string{"list", "list", "array"}, "coll")
@@ -300,6 +300,8 @@ func sameInts(a, b []int) bool {
 
 var (
 	etInt    = elemType[int]{[]int{0, 1, 2, 3, -7}, func(a, b int) bool { return a == b }, func(a, b int) bool { return a == b }, func(a, b int) bool { return a < b }}
+	// both ends of the int64 range next to small values: pairs that are 2^63 or more apart
+	etIntFar = elemType[int]{[]int{math.MinInt64, -1, 0, 1, math.MaxInt64}, func(a, b int) bool { return a == b }, func(a, b int) bool { return a == b }, func(a, b int) bool { return a < b }}
 	etString = elemType[string]{[]string{"", "a", "b", "ab", "c"}, func(a, b string) bool { return a == b }, func(a, b string) bool { return a == b }, func(a, b string) bool { return a < b }}
 	etFloat  = elemType[float64]{[]float64{0, math.Copysign(0, -1), 1.5, -2, 1e300},
 		func(a, b float64) bool { return math.Float64bits(a) == math.Float64bits(b) }, func(a, b float64) bool { return a == b }, func(a, b float64) bool { return a < b }}
@@ -311,6 +313,8 @@ func execSeqCase(c seqCase, s core.Source) core.Result {
 	switch c.Elem {
 	case "int":
 		return execSeq(c, etInt)
+	case "int-far":
+		return execSeq(c, etIntFar)
 	case "string":
 		return execSeq(c, etString)
 	case "float64":
